@@ -2,6 +2,8 @@ package eng
 
 import (
 	"fmt"
+	"runtime"
+	"sync/atomic"
 	"unsafe"
 
 	"github.com/mlange-42/ark/ecs"
@@ -630,6 +632,83 @@ func init() {
 		}
 		panic(skipMisuse{})
 	})
+	addMisuse("debugguard", "MapN.Set with only the last component missing", func(d *Drv, op *Op, _, _ ecs.Entity) {
+		// any alive entity and any tuple such that the entity has all but the last component of the tuple (the pointer of
+		// the last one is fetched last): rejected in every build, nothing written
+		m := d.M
+		for k := range typed.Tuples {
+			ti := (k + op.N) % len(typed.Tuples)
+			cs := typed.Tuples[ti].Comps
+			if len(cs) < 2 || u.Types[cs[0]].ZeroSize {
+				continue
+			}
+			head := SetOf(cs[:len(cs)-1]...)
+			for e := m.Epoch0; e < len(m.Ents); e++ {
+				st := &m.Ents[e]
+				if !st.Alive || !st.Mask.Contains(head) || st.Mask.Has(cs[len(cs)-1]) || e >= len(d.H) || d.H[e].IsZero() {
+					continue
+				}
+				vals := make([]int64, len(cs))
+				for j := range vals {
+					vals[j] = 434343
+				}
+				d.Stat.Misuse[fmt.Sprintf("Map%d.Set last missing", len(cs))]++
+				d.TMap(ti).Set(d.H[e], vals)
+				return
+			}
+		}
+		panic(skipMisuse{})
+	})
+	addMisuse("debugguard", "MapN.Set with only the last component missing (every arity)", func(d *Drv, op *Op, _, _ ecs.Entity) {
+		// entities that have all but the last component of a high-arity tuple hardly ever exist: a temporary one is built
+		// for the call and removed again (not while observers are registered: they would see it)
+		for i := range d.M.Obs {
+			if d.M.Obs[i].Registered {
+				panic(skipMisuse{})
+			}
+		}
+		var cands []int
+		for ti := range typed.Tuples {
+			cs := typed.Tuples[ti].Comps
+			if len(cs) >= 2 && !u.Types[cs[0]].ZeroSize {
+				cands = append(cands, ti)
+			}
+		}
+		ti := cands[op.N%len(cands)]
+		cs := typed.Tuples[ti].Comps
+		var ids []ecs.ID
+		var rel []ecs.Relation
+		for _, c := range cs[:len(cs)-1] {
+			ids = append(ids, d.ID[c])
+			if u.Types[c].IsRel {
+				rel = append(rel, ecs.RelID(d.ID[c], ecs.Entity{}))
+			}
+		}
+		tmp := d.U.NewEntityRel(ids, rel...)
+		if tmp.ID() > d.foreignMaxID {
+			d.foreignMaxID = tmp.ID() // the ID is in use in this epoch, although no model entity has it
+		}
+		defer func() {
+			// whether or not the call was rejected with a panic: nothing may have been written (the temporary entity was
+			// created without values, so everything reads zero)
+			for _, c := range cs[:len(cs)-1] {
+				if u.Types[c].ZeroSize {
+					continue
+				}
+				if v, ok := u.Types[c].Dec(d.U.Get(tmp, d.ID[c])); v != 0 || !ok {
+					d.viol("C10", "misuse-effect", "Map%d.Set on an entity that lacks the last component wrote component %s (reads %d)", len(cs), typeName(c), v)
+					break
+				}
+			}
+			d.W.RemoveEntity(tmp)
+		}()
+		vals := make([]int64, len(cs))
+		for j := range vals {
+			vals[j] = 454545
+		}
+		d.Stat.Misuse[fmt.Sprintf("Map%d.Set last missing (temporary entity)", len(cs))]++
+		d.TMap(ti).Set(tmp, vals)
+	})
 	addMisuse("debugguard", "MapN.GetRelation missing component", func(d *Drv, op *Op, h, _ ecs.Entity) {
 		// a tuple none of whose components the entity has
 		mask := SetOf(op.Add...)
@@ -813,6 +892,27 @@ func init() {
 			}
 			q.Next()
 		})
+		// Count and EntityAt do not use the cursor: what they do on a finished query is the same in every build
+		addMisuse("debugguardN", "QueryN.Count+EntityAt after exhaustion"+name, func(d *Drv, op *Op, h, _ ecs.Entity) {
+			f, q := tq(d, op, cached)
+			defer fin(f, q)
+			for q.Next() {
+			}
+			if n := q.Count(); n > 0 {
+				sink = int64(q.EntityAt(n - 1).ID())
+			}
+			sink += int64(q.EntityAt(0).ID())
+		})
+		addMisuse("debugguardN", "QueryN.Count+EntityAt after early Close"+name, func(d *Drv, op *Op, h, _ ecs.Entity) {
+			f, q := tq(d, op, cached)
+			defer fin(f, q)
+			q.Next()
+			q.Close()
+			if n := q.Count(); n > 0 {
+				sink = int64(q.EntityAt(n - 1).ID())
+			}
+			sink += int64(q.EntityAt(0).ID())
+		})
 	}
 	// ---- queries created with an invalid relation argument (every arity, op.Tuple has a relation component):
 	// whether the call panics or yields an empty query is not specified for dead targets, but it must not leak
@@ -834,6 +934,17 @@ func init() {
 				defer func() { recover() }()
 				_ = f.Batch(rel)
 			}()
+			// the filter object is as usable as before: a plain query on it works (and does not block - a lock taken by
+			// the rejected call would still be held)
+			if d.Headroom() {
+				if !completes(func() {
+					if p := try(func() { q := f.Query(nil); q.Close() }); p != nil {
+						d.viol("C10", "filter-after-rejected-query", "%s: a plain Query on the same filter object panics after the rejected call: %v", name, p)
+					}
+				}) {
+					d.viol("C10", "filter-after-rejected-query", "%s: a plain Query on the same filter object blocks for ever after the rejected call", name)
+				}
+			}
 			panic("invalid relation argument handled") // counted as a rejected call; monitors run afterwards
 		})
 	}
@@ -1131,3 +1242,17 @@ var finDrv *Drv
 
 // skipMisuse is the panic value used when a misuse row is not applicable in the current state.
 type skipMisuse struct{}
+
+// completes runs fn in a goroutine and reports whether it finished. A call that blocks for ever (a mutex left locked) is
+// told from a slow one by scheduling steps, not by wall-clock time: fn needs no time slice worth mentioning.
+func completes(fn func()) bool {
+	var done atomic.Bool
+	go func() {
+		defer done.Store(true)
+		fn()
+	}()
+	for i := 0; i < 2_000_000 && !done.Load(); i++ {
+		runtime.Gosched()
+	}
+	return done.Load()
+}
